@@ -205,7 +205,7 @@ func (r *GRPCResponseExpr) Finalize(a *GRPCEndpointExpr, svcAtt *AttributeExpr) 
 		} else if !r.Trailers.IsEmpty() {
 			initAttrFromDesign(r.Trailers.AttributeExpr, svcAtt)
 		} else {
-			initAttrFromDesign(r.Message, svcAtt)
+			initMessageFromDesign(r.Message, svcAtt)
 		}
 	}
 }
